@@ -18,13 +18,15 @@ import (
 )
 
 type World struct {
-	plumb    map[*ssa.Function]bool
-	plumbSum map[*ssa.Function]*Expr
-	outCache map[[2]any]*outSum
-	P        *load.Program
-	Prog     *ssa.Program
-	Funcs    []*ssa.Function // every SSA function (incl. closures, methods) of repo + fixture packages
-	inSet    map[*ssa.Function]bool
+	plumb      map[*ssa.Function]bool
+	plumbSum   map[*ssa.Function]*Expr
+	hooked     bool
+	initFields map[[2]any]*Expr
+	outCache   map[[2]any]*outSum
+	P          *load.Program
+	Prog       *ssa.Program
+	Funcs      []*ssa.Function // every SSA function (incl. closures, methods) of repo + fixture packages
+	inSet      map[*ssa.Function]bool
 
 	// named (non-interface) types declared in repo/fixture packages, for CHA
 	namedTypes []*types.Named
